@@ -31,7 +31,7 @@ PROP = dict(
                'handler and ESC [ Pn * z inside a DCS string), for all macro tables; with the test in the handler only the model nests as deep as it has frames. Wall-clock time, allocator behaviour and stack are outside any model and are '
                'measured on the real code by the oracle (per-token / per-file time, cells and picture bytes allocated, address-space cap, '
                'crash-isolated workers). PARTIAL: the number of CELLS a loader allocates is rows x a DECLARED width (IcyDraw layer width, '
-               'SAUCE width <= 1000): three recorded findings',
+               'SAUCE width <= 1000; Tundra since the C05 loader repair: any SAUCE width up to 65535): three recorded findings',
     technique='Lean 4 proof of clamp bounds over the TermGeo model + translator-regenerated loop inventories (decide; the '
               'terminal-stream code, src/fonts.rs, src/palette_handling.rs, and - Gen/LoaderLoops - the loading side of every binary format, '
               'tdf_font, sixel_mod, Layer::set_char; for a loop bounded by a RAW parameter the text of the rejecting guard is part of the '
@@ -86,7 +86,7 @@ PROP = dict(
              'Buffer::from_bytes dispatch); the sixel decoder\'s allocation sizes, size guards and repeat loop (Model/Sixel + Lemmas/SixelCost)',
     not_modelled='time, memory, stack (oracle only; the NUMBER of nested replay levels is modelled and proved, the bytes of stack per level are not - the oracle runs every '
                  'nesting case on the real parser and counts the levels); cells allocated = rows x declared width where the width is declared by the file '
-                 '(IcyDraw layer width up to 2^31-1: finding file:icy:runaway; SAUCE width up to 1000 x 65535 rows: findings '
+                 '(IcyDraw layer width up to 2^31-1: finding file:icy:runaway; SAUCE width up to 1000 - Tundra since its C05 repair up to 65535 - x 65535 rows: findings '
                  'file:icy:huge, file:tnd:huge, file:ans:huge); text-format files on non-terminal buffers (ANSI, PCBoard, Avatar ... through '
                  'parse_with_parser: oracle only - the cursor-row cap MAX_FILE_BUFFER_HEIGHT is regenerated, not modelled); the PNG / zlib / '
                  'base64 layer of .icy; the regex engine behind the palette importers; the tab-stop report DECTABSR (inventory + timing only); '
